@@ -125,6 +125,19 @@ theorem FifoInv_step (s s' : Sys) (l : Label) (h : FifoInv s) (hs : step? s l = 
     | exact FifoInv_afterPush _ _ (FifoInv_of_eq h rfl rfl rfl rfl rfl) (by assumption)
     | exact FifoInv_afterStrand _ _ (FifoInv_of_eq h rfl rfl rfl rfl rfl)
     | (split <;> exact FifoInv_complete _ _ _ _ (FifoInv_neutral s _ _ h rfl rfl rfl rfl rfl rfl))
+    | (rename_i heq _
+       obtain ⟨h1, h2, h3, h4⟩ := h
+       cases ho : s.rxOpen with
+       | false => rw [h3 ho] at heq; cases heq
+       | true =>
+         have hd := h2 ho
+         rw [heq] at hd
+         obtain ⟨a, b, c⟩ := take_succ_of_drop _ _ _ _ hd.symm
+         refine ⟨by simp; omega, ?_, ?_, ?_⟩
+         · intro _; simp [b]
+         · intro hc; simp at hc
+         · show startedMids (s.ev ++ _) = envIds (List.take (s.taken + 1) s.accepted)
+           rw [started_append, a, h4]; simp [envIds, startedMids, List.filterMap_append])
     | (rename_i heq
        obtain ⟨h1, h2, h3, h4⟩ := h
        cases ho : s.rxOpen with
